@@ -1,7 +1,7 @@
 (* C20  Condensed-matrix indexing, 1-D pair metrics and constraint propagation are exact.
    Index maps in exact integer arithmetic (the float side is tied by the correspondence,
    not proved). [kidx n i j] is the closed form i*n - i(i+3)/2 + j - 1. Statements only. *)
-From PV Require Import Model.Condensed Proofs.CondensedP.
+From PV Require Import Model.Condensed Proofs.CondensedP Proofs.PropagateP.
 
 Theorem C20_condensed_symmetric : forall n i j, to_condensed n i j = to_condensed n j i.
 Proof. exact condensed_sym. Qed.
@@ -53,16 +53,29 @@ Theorem C20_metric_definitions : forall x y,
   metric_fn MMax x y = Z.max x y /\ metric_fn MAvg x y = x + y.
 Proof. exact metric_defs. Qed.
 
-(* propagate_constraints (partial): whatever it returns contains the given cannot-link pairs and is
-   closed under (u != v) & (v == w) ==> u != w with no must-link pair inside it.
-   NOT proved: minimality (nothing but implied pairs), the exact ValueError condition, and
-   termination within the fuel; those are decided by the exhaustive correspondence on small graphs. *)
-Theorem C20_propagate_closed_partial : forall cl ml r,
+(* propagate_constraints. [meq ml] is the must-link equivalence (reflexive-symmetric-transitive
+   closure of the must-link pairs); [implied cl ml a b] says that some given cannot-link pair (u, v)
+   has a ~ u and b ~ v (in either order). For inputs without degenerate pairs (u, u) the function
+   returns exactly the implied pairs in sorted form, raises exactly when a must-link group contains
+   a cannot-link pair, and the model's loop never runs out of its fuel (each pass but the last adds
+   a new pair of vertices). Degenerate pairs are tied only (compared exactly with the model). *)
+Theorem C20_propagate_closed : forall cl ml r,
   propagate cl ml = Some (Some r) -> pass_closed r ml.
 Proof. exact propagate_closed. Qed.
-Theorem C20_propagate_extends_partial : forall cl ml r q,
+Theorem C20_propagate_extends : forall cl ml r q,
   propagate cl ml = Some (Some r) -> ps_mem q (ps_of (map sorted_pair cl)) = true -> ps_mem q r = true.
 Proof. intros cl ml r q. apply prop_loop_extends. Qed.
+Theorem C20_propagate_returns_exactly_the_implied_pairs : forall cl ml,
+  (forall u v, In (u, v) cl -> u <> v) -> (forall x y, In (x, y) ml -> x <> y) ->
+  forall r, propagate cl ml = Some (Some r) ->
+  forall a b, In (a, b) r <-> a < b /\ implied cl ml a b.
+Proof. exact propagate_exact. Qed.
+Theorem C20_propagate_raises_exactly_on_conflict : forall cl ml,
+  (forall u v, In (u, v) cl -> u <> v) -> (forall x y, In (x, y) ml -> x <> y) ->
+  (propagate cl ml = Some None <-> exists u v, In (u, v) cl /\ meq ml u v).
+Proof. exact propagate_error_iff. Qed.
+Theorem C20_propagate_terminates_within_fuel : forall cl ml, propagate cl ml <> None.
+Proof. exact propagate_terminates. Qed.
 
 Example C20_nonvacuous :
   to_condensed 5 3 1 = Some 5 /\ to_squared 5 5 = (1, 3) /\
@@ -86,5 +99,8 @@ Print Assumptions C20_pdist_layout.
 Print Assumptions C20_cdist_entry.
 Print Assumptions C20_pdist_short_inputs.
 Print Assumptions C20_metric_definitions.
-Print Assumptions C20_propagate_closed_partial.
-Print Assumptions C20_propagate_extends_partial.
+Print Assumptions C20_propagate_closed.
+Print Assumptions C20_propagate_extends.
+Print Assumptions C20_propagate_returns_exactly_the_implied_pairs.
+Print Assumptions C20_propagate_raises_exactly_on_conflict.
+Print Assumptions C20_propagate_terminates_within_fuel.
